@@ -3,6 +3,7 @@ package scen
 import (
 	"fmt"
 	"math/big"
+	"strings"
 	"time"
 
 	"verif/sim/kernel"
@@ -173,7 +174,9 @@ func runC02Stall(s *kernel.Sim) {
 var srcAddrs = []string{"10.1.2.3:5555", "[2001:db8::7]:4444", "host.example.org:3333", "[::1]:2222", "203.0.113.9:1", "[fe80::1]:9", ":7777", "[::]:8888", "0.0.0.0:9999", "[fe80::1%eth0]:51234", "[fe80::5%abc0]:6"}
 
 func overrides(a, other *Actor, pick int) string {
-	switch pick % 28 {
+	switch pick % 29 {
+	case 28:
+		return "enode://" + strings.ToUpper(a.ID) + "@198.51.100.10:31010" // its own id, upper-case hex digits
 	case 25:
 		return "enode://" + a.ID + "@[::%25eth0]:30303" // the unspecified address, with a zone: still nowhere to dial
 	case 26:
@@ -362,7 +365,7 @@ func runWorldSeq(s *kernel.Sim, p profile) {
 					payout = a.Wallet.Addr
 				}
 				if p.uriOverrides && a.IsHost {
-					ov = overrides(a, anyActor(), d.choose("override", 28))
+					ov = overrides(a, anyActor(), d.choose("override", 29))
 				}
 				d.Connect(a, payout, ov, false)
 			case 2: // keep-alive
@@ -455,7 +458,7 @@ func runWorldSeq(s *kernel.Sim, p profile) {
 				if a.IsHost {
 					ov := ""
 					if p.uriOverrides {
-						ov = overrides(a, anyActor(), d.choose("override", 28))
+						ov = overrides(a, anyActor(), d.choose("override", 29))
 					}
 					d.Connect(a, "", ov, true)
 				} else {
